@@ -61,9 +61,12 @@ def main(tier, replay=None):
         except goparse.GoParseError as e:
             raise common.MachineryError("cannot read the Go runtime helpers: %s" % e)
         metas.append(None)
-        for k in range(n):
+        for k in range(n + 1):
             rng = random.Random("c19/%d/%d" % (seed, k))
-            pr, _ = gen.rand_case(seed, 240000 + k, max_bits=rng.choice([60, 300, 1000]))
+            if k == n:
+                pr = gen.same_names_program()       # the same bare name for different definitions in different scopes
+            else:
+                pr, _ = gen.rand_case(seed, 240000 + k, max_bits=rng.choice([60, 300, 1000]))
             d = scratch.sub()
             main_path, paths = render.write_program(pr, d)
             drive.compile_program(paths, pr["order"], "go", d)
